@@ -364,6 +364,36 @@ func c18Formatted(c *core.Ctx, f c18File) (string, int) {
 func c18Check(c *core.Ctx, f c18File, dir, path, formatted, desc string) {
 	c.Event("check_runs", 1)
 	c.Distinct(desc)
+	if f.parses && !f.txtar && !f.symlink && formatted != f.content && len(f.content) < 100000 {
+		// several files in one invocation: the verdict must cover all of them, -w must format all
+		good, bad := filepath.Join(dir, "good.evy"), filepath.Join(dir, "bad.evy")
+		_ = os.WriteFile(good, []byte(formatted), 0o644)
+		_ = os.WriteFile(bad, []byte(f.content), 0o644)
+		for _, args := range [][]string{{"good.evy", "bad.evy"}, {"bad.evy", "good.evy"}, {"good.evy", "bad.evy", "good.evy"}, {"good.evy", "good.evy"}} {
+			full := []string{"fmt", "-c"}
+			anyBad := false
+			for _, a := range args {
+				full = append(full, filepath.Join(dir, a))
+				anyBad = anyBad || a == "bad.evy"
+			}
+			_, stderr, code, err := evyCmd(c, "", full...)
+			if err != nil {
+				c.Inconclusive(desc + ": " + err.Error())
+				break
+			}
+			c.Event("multi_file_check_runs", 1)
+			if (code == 0) == anyBad {
+				c.Violation("check-wrong-verdict-multi", fmt.Sprintf("evy fmt -c %v: exit %d (%s), unformatted-file-present=%v", args, code, firstN(stderr, 120), anyBad), desc, nil)
+			}
+		}
+		_, _, code, err := evyCmd(c, "", "fmt", "-w", bad, good)
+		gb, _ := os.ReadFile(bad)
+		if err == nil && (code != 0 || string(gb) != formatted) {
+			c.Violation("write-multi", fmt.Sprintf("evy fmt -w bad.evy good.evy: exit %d, first file formatted=%v", code, string(gb) == formatted), desc, nil)
+		}
+		os.Remove(good)
+		os.Remove(bad)
+	}
 	// file form: original text
 	for _, v := range []struct {
 		text string
